@@ -2933,7 +2933,13 @@ fn reverse_complement_sequence(seq: &[u8]) -> Vec<u8> {
     use crate::kmer::reverse_complement;
     seq.iter()
         .rev()
-        .map(|&base| reverse_complement(base as u64) as u8)
+        .map(|&base| {
+            if base < 4 {
+                reverse_complement(base as u64) as u8
+            } else {
+                base // N / IUPAC codes are reversed but not complemented
+            }
+        })
         .collect()
 }
 
